@@ -26,6 +26,7 @@
 import Mpir.Base
 import Mpir.Model.DivZ
 import Mpir.Model.Bits
+import Mpir.Model.Root
 namespace Mpir.AliasMem
 open Mpir
 open Mpir.DivZ (sizeNat siz sameSign)
@@ -969,6 +970,56 @@ def sqrtremV (V : Variant) (root rem op : Nat) (s : St) : R St := do
     pure (if c then s.free op_ptr else s)                     -- :97 TMP_FREE
 
 def sqrtrem := sqrtremV .c
+
+/-! ## mpz_rootrem (model + differential tie only: no theorem yet) -/
+
+/-- mpn_rootrem (rootp, remp, up, un, k): mpn/generic/rootrem.c:70-84 "(d) the operands do not overlap", `un > 0`,
+    `up[un-1] != 0`, `k > 1`.  Stores the (un-1)/k+1 root limbs and the remainder limbs; returns the remainder size. -/
+def mpn_rootrem (rootp remp up un k : Nat) (s : St) : R (Nat × St) := do
+  if rootp = up ∨ rootp = remp ∨ remp = up then throw "ub:mpn_rootrem operands overlap"
+  let n ← s.load up un
+  if ¬ (1 ≤ un ∧ 2 ≤ k) then throw "ub:mpn_rootrem arguments"
+  if n.getD (un - 1) 0 = 0 then throw "ub:mpn_rootrem operand not normalised"
+  let r := Root.irootFast k (val n)
+  let s ← s.store rootp (toLimbs ((un - 1) / k + 1) r)
+  let rem := val n - Root.powS r k
+  let s ← s.store remp (toLimbs (sizeNat rem) rem)
+  pure (sizeNat rem, s)
+
+/-- mpz_rootrem (root, rem, u, nth): mpz/rootrem.c:35-92, root ≠ rem (and root not NULL).  root = u: the root is built
+    in TMP space and copied back (:60-63, :82-83); rem = u likewise (:65-68, :84-85); `up = PTR (u)` is fetched after the
+    two reallocations (:70). -/
+def rootrem (root rem u nth : Nat) (s : St) : R St := do
+  let us := s.size u                                          -- rootrem.c:35
+  if us < 0 ∧ nth % 2 = 0 then throw "sqrtneg"                -- :38-39
+  if nth = 0 then throw "div0"                                -- :43-44
+  if us = 0 then pure ((s.setSize root 0).setSize rem 0)      -- :46-52
+  else
+    let un := us.natAbs                                       -- :54
+    let rootn := (un - 1) / nth + 1                           -- :55
+    let r1 := s.tmpAlloc rootn
+    let s1 := if u ≠ root then s.mpzRealloc root rootn else r1.2        -- :60-63
+    let rootp := if u ≠ root then s1.ptr root else r1.1
+    let r2 := s1.tmpAlloc un
+    let s2 := if u ≠ rem then s1.mpzRealloc rem un else r2.2            -- :65-68
+    let remp := if u ≠ rem then s2.ptr rem else r2.1
+    let up := s2.ptr u                                        -- :70
+    let (remn, s3) ← (if nth = 1 then do                      -- :72
+        let l ← s2.load up un                                 -- :74 MPN_COPY (rootp, up, un)
+        let s ← s2.store rootp l
+        pure (0, s)
+      else mpn_rootrem rootp remp up un nth s2)               -- :79
+    let s4 := s3.setSize root (if us ≥ 0 then (rootn : Int) else -(rootn : Int))       -- :84
+    let s5 ← (if u = root then do                             -- :85-86
+        let l ← s4.load rootp rootn
+        s4.store up l
+      else if u = rem then do                                 -- :87-88
+        let l ← s4.load remp remn
+        s4.store up l
+      else pure s4)
+    let s6 := s5.setSize rem (if us < 0 ∧ remn > 0 then -(remn : Int) else (remn : Int))   -- :91
+    let s7 := if u = root then s6.free rootp else s6          -- :92 TMP_FREE
+    pure (if u = rem then s7.free remp else s7)
 
 /-! ## building a state from values (driver, examples) -/
 
